@@ -1053,6 +1053,25 @@ pub fn run(ctx: &mut Ctx) {
                             }
                         }
                     }
+                    // C17: entry code runs before anything else of the function, exit code on the ways out: the first entry probe stands in
+                    // front of the first exit probe, whatever the first instruction is
+                    {
+                        let first_of = |want_exit: bool| -> Option<usize> {
+                            plan.iter()
+                                .filter_map(|st| match st {
+                                    Step::Func { exit, probes } if *exit == want_exit => Some(probes),
+                                    _ => None,
+                                })
+                                .flatten()
+                                .filter_map(|p| out.iter().position(|x| *x == format!("i32.const:{p}")))
+                                .min()
+                        };
+                        if let (Some(e), Some(x)) = (first_of(false), first_of(true)) {
+                            if x < e {
+                                fails.push(("C17", "func_exit-code-in-front-of-entry-code".into(), format!("first exit probe at {x}, first entry probe at {e}")));
+                            }
+                        }
+                    }
                     // function entry / exit injections are special-mode injections too
                     for st in &plan {
                         if let Step::Func { exit, probes } = st {
